@@ -13,7 +13,7 @@ from .common import call, call_func, driver_interp, new_obj
 OPTIONS = ("indent", "value_column", "block_separator", "trailing_comma", "parsing_failed_comment")
 
 
-def build_library(it, P, shape):
+def build_library(it, P, shape, concrete_field_keys=False):
     """shape: list of block descriptors, e.g. ('entry', n_fields) / 'string' / 'preamble' / 'comment' / 'implicit' / 'failed'."""
     mk = lambda cls, *a, **k: new_obj(it, P, "model", cls, *a, **k)
     lib = new_obj(it, P, "library", "Library")
@@ -21,7 +21,8 @@ def build_library(it, P, shape):
     for bi, sh in enumerate(shape):
         if isinstance(sh, tuple):
             n = sh[1]
-            fields = [mk("Field", key=Hole(f"b{bi}.f{j}.key"), value=Hole(f"b{bi}.f{j}.value"), start_line=0) for j in range(n)]
+            fkey = (lambda j: ("year" if j == 1 else f"fk{bi}x{j}")) if concrete_field_keys else (lambda j: Hole(f"b{bi}.f{j}.key"))
+            fields = [mk("Field", key=fkey(j), value=Hole(f"b{bi}.f{j}.value"), start_line=0) for j in range(n)]
             b = mk("Entry", entry_type=Hole(f"b{bi}.type"), key=Hole(f"b{bi}.key"), fields=AList(fields), start_line=0, raw=Hole(f"b{bi}.raw"))
             descr.append(("entry", bi, n))
         elif sh == "string":
